@@ -182,6 +182,10 @@ def fresh(rng, lo, hi, n, avoid):
     raise core.MachineryError('history: no free ids in %d..%d' % (lo, hi))
 
 
+def is_delayed(x):
+    return 100000 <= x < 200000 and x % 1000 == 0
+
+
 class RowPools(object):
     """what the rows of the defined sequences are drawn from (K.gen_item interface)"""
 
@@ -242,9 +246,15 @@ def make_states(K, rng, fb, fd, tier):
                 RP = RowPools(elems, P0.factors, lower + made * 6 if made else lower)
                 row = K.gen_list(rng, RP)
                 if rng.random() < 0.35 and made:
-                    row.insert(rng.randrange(len(row) + 1), rng.choice([a, b, c]))     # an NCEP sequence inside a row
-                if len(row) > 40:
-                    row = row[:40]
+                    # an NCEP sequence inside a row (not in the place of a replication factor)
+                    at = [j for j in range(len(row) + 1) if j == 0 or not is_delayed(row[j - 1])]
+                    row.insert(rng.choice(at), rng.choice([a, b, c]))
+                row = row[:40]
+                while row and is_delayed(row[-1]):
+                    # a delayed replication without a factor makes TableD.__init__ fail for the whole table group
+                    # (StopIteration): in-stream definitions, C20's matter
+                    row.pop()
+                row = row or [rng.choice(elems)]
                 # no reference cycles: a row refers to table-file sequences and to rows made before it only
                 later = (set(redef) | set(new)) - set(made) - {a, b, c, bad, ill}
                 row = [rng.choice(elems) if x in later else x for x in row]
